@@ -64,6 +64,13 @@ def _check(ctx, lens):
                         dict(case, index=i, got=impl_items[i]))
             break
     else:
+        # counts observed AGAIN after the flattened list was read, and the members themselves: reading must not change anything
+        after = dict(len=len(coll), lengths=list(coll.dataset_lengths), n_mazes=int(coll.cfg.n_mazes), member_lens=[len(d.mazes) for d in members],
+                     mazes=[ids.get(id(m), -1) for m in coll.mazes])
+        if after != dict(len=n, lengths=list(lens), n_mazes=n, member_lens=list(lens), mazes=list(range(n))):
+            ctx.violate(f"after reading .mazes / items, len / dataset_lengths / n_mazes / the members' own lists no longer agree with the member lengths {list(lens)}: {after}",
+                        dict(case, after=after))
+            return case, impl, members
         # the same collection object read again in other orders (descending, random, with repeats): an answer must not depend on
         # which index was read before (anything __getitem__ remembers between calls)
         orders = [list(range(n - 1, -1, -1))]
@@ -115,6 +122,39 @@ def run(ctx, thorough_bounds=False):
         ctx.sample(dict(lens=case["lens"], items=impl["items"], locs=o["locs"]), limit=4) if sum(case["lens"]) > 2 and 0 in case["lens"] else None
     # dynamic part of the count clause: filter members, update_self_config, counts still agree
     _after_update(ctx)
+    _generated(ctx)
+
+
+def _generated(ctx):
+    """collections built by MazeDatasetCollection.generate / from_config from member CONFIGS (not from ready-made datasets): members
+    that share name, grid size and seed and differ only in the requested maze count must each get their own count"""
+    from maze_dataset import MazeDatasetConfig
+    from maze_dataset.dataset.collected_dataset import MazeDatasetCollection, MazeDatasetCollectionConfig
+    for lens, same in [((2, 0, 4), True), ((3, 3, 1), True), ((1, 2), False), ((0, 2, 2, 5), True)]:
+        cfgs = [MazeDatasetConfig(name="shard" if same else f"g{k}", grid_n=3, n_mazes=n, seed=7) for k, n in enumerate(lens)]
+        ccfg = MazeDatasetCollectionConfig(name="gen", maze_dataset_configs=cfgs)
+        for how in ("generate", "from_config"):
+            try:
+                coll = MazeDatasetCollection.generate(ccfg, do_generate=True) if how == "generate" else \
+                       MazeDatasetCollection.from_config(ccfg, do_generate=True, load_local=False, save_local=False, do_download=False)
+            except TypeError:
+                try: coll = MazeDatasetCollection.generate(ccfg)
+                except Exception as e:
+                    ctx.notes.append(f"collection {how} not callable as expected: {type(e).__name__}"); continue
+            except Exception as e:
+                ctx.violate(f"MazeDatasetCollection.{how} raised {type(e).__name__}: {str(e)[:150]} for member counts {list(lens)}", dict(lens=list(lens), how=how, generated=True)); continue
+            n = sum(lens)
+            got = dict(len=len(coll), lengths=[int(x) for x in coll.dataset_lengths], n_mazes=int(coll.cfg.n_mazes), flat=len(coll.mazes),
+                       member_lens=[len(d.mazes) for d in coll.maze_datasets])
+            ctx.case(dict(generated=list(lens), how=how, same=same)); ctx.count("generated_collections")
+            if got != dict(len=n, lengths=list(lens), n_mazes=n, flat=n, member_lens=list(lens)):
+                ctx.violate(f"MazeDatasetCollection.{how} from member configs asking for {list(lens)} mazes ({'same' if same else 'distinct'} names): "
+                            f"length / per-member lengths / reported count disagree: {got}", dict(lens=list(lens), how=how, generated=True, got=got))
+                return
+            flat = [m for d in coll.maze_datasets for m in d.mazes]
+            for i in range(n):
+                if coll[i] is not flat[i]:
+                    ctx.violate(f"generated collection ({list(lens)}): item {i} is not item {i} of the concatenation", dict(lens=list(lens), how=how, generated=True, index=i)); return
 
 
 def _after_update(ctx):
@@ -134,6 +174,8 @@ def _after_update(ctx):
 
 def search(ctx):
     """deeper oracle-only exploration of the real code (used when an obligation or the correspondence broke)"""
+    _generated(ctx)
+    if ctx.violations: return
     for lens in _vectors(ctx, thorough_bounds=True):
         _check(ctx, lens)
         if ctx.violations:
@@ -142,6 +184,8 @@ def search(ctx):
 
 def replay(ctx, rp):
     case = rp.get("case", rp)
+    if case.get("generated"):
+        _generated(ctx); return
     if "order" in case:
         coll, members = _build(tuple(case["lens"]))
         flat = [m for d in members for m in d.mazes]
